@@ -19,10 +19,7 @@ func (e *Engine) stub7(fn *ssa.Function, args []any) (any, bool) {
 		return IfaceV{namedType("crypto/ecdh", "Curve"), &CurveV{}}, true
 	case "(*crypto/ecdh.PrivateKey).PublicKey":
 		pr := (*args[0].(Ptr).cells)[0].(*EcdhPrivV)
-		pub := "(x25519pub " + pr.raw + ")"
-		x25519PubOf[pub] = pr.raw
-		e.S.Send("(assert (= (str.len " + pub + ") 32))")
-		return newObj(&EcdhPubV{pub}), true
+		return newObj(&EcdhPubV{e.x25519Pub(pr.raw)}), true
 	case "(*crypto/ecdh.PublicKey).Bytes":
 		return BytesV{E: (*args[0].(Ptr).cells)[0].(*EcdhPubV).raw}, true
 	case "(*crypto/ecdh.PrivateKey).ECDH":
@@ -37,13 +34,7 @@ func (e *Engine) stub7(fn *ssa.Function, args []any) (any, bool) {
 			e.S.Send("(assert (= (str.len " + ex + ") 32))")
 			return Tuple{BytesV{E: ex}, IfaceV{}}, true
 		}
-		a, b := pr.raw, other
-		if a > b {
-			a, b = b, a
-		}
-		ex := "(dhs " + a + " " + b + ")"
-		e.S.Send("(assert (= (str.len " + ex + ") 32))")
-		return Tuple{BytesV{E: ex}, IfaceV{}}, true // commutative by construction
+		return Tuple{BytesV{E: e.dhShared(pr.raw, other)}, IfaceV{}}, true
 	case "(crypto/ed25519.PrivateKey).Sign":
 		priv := args[0].(BytesV)
 		k := ""
@@ -56,6 +47,36 @@ func (e *Engine) stub7(fn *ssa.Function, args []any) (any, bool) {
 		return Tuple{BytesV{E: sym, SigKey: k, SigMsg: bytesE(msg)}, IfaceV{}}, true
 	}
 	return nil, false
+}
+
+// dhShared is the X25519 shared secret of two private scalars: commutative, and (assumption) different
+// unordered key pairs never collide. Both facts are asserted as ground instances over the terms of the run.
+func (e *Engine) dhShared(a, b string) string {
+	ex := "(dhs " + a + " " + b + ")"
+	for _, p := range e.dhPairs {
+		if p[0] == a && p[1] == b {
+			return ex
+		}
+	}
+	e.S.Send(fmt.Sprintf("(assert (and (= (str.len %s) 32) (str.prefixof \"\\u{1}D\" %s) (= %s (dhs %s %s))))", ex, ex, ex, b, a))
+	for _, p := range e.dhPairs {
+		e.S.Send(fmt.Sprintf("(assert (=> (= %s (dhs %s %s)) (or (and (= %s %s) (= %s %s)) (and (= %s %s) (= %s %s)))))", ex, p[0], p[1], a, p[0], b, p[1], a, p[1], b, p[0]))
+	}
+	e.dhPairs = append(e.dhPairs, [2]string{a, b})
+	return ex
+}
+
+// x25519Pub registers the public key of private scalar raw (injective: distinct scalars, distinct points).
+func (e *Engine) x25519Pub(raw string) string {
+	pub := "(x25519pub " + raw + ")"
+	if _, ok := x25519PubOf[pub]; !ok {
+		e.S.Send("(assert (and (= (str.len " + pub + ") 32) (str.prefixof \"\\u{1}Q\" " + pub + ")))")
+		for other, oraw := range x25519PubOf {
+			e.S.Send(fmt.Sprintf("(assert (=> (= %s %s) (= %s %s)))", pub, other, raw, oraw))
+		}
+		x25519PubOf[pub] = raw
+	}
+	return pub
 }
 
 func (e *Engine) curveMethod(name string, args []any) any {
